@@ -147,9 +147,37 @@ def run_case(case):
             f.write(drawer.render_pte_header(rng, table))
         data = data_for(rng, table, 0, len(table))
         label = 'synthetic'
-    lines = parse_ilog_data(memoryview(bytes(data)), path)
-    rec = dict(family='C14', shape_ok=True, label=label, table=drawer.abstract_pte(table), data=data,
-               headings=min(2, len(lines)), lines=[])
+    if case['kind'] == 'shipped':
+        # the SAME entries are then decoded for the other drawer type, and for the first one again - through the
+        # decoder itself and through the I/O drawer plug-in that picks table and decoder by section version: what one
+        # table says about a PTE says nothing about the other's
+        other = [f for f in ('mex_pte.h', 'nimitz_pte.h') if f != case['file']][0]
+        tb, _ = drawer.read_pte_table(os.path.join(drawer.io_dir(), other))
+        nb = len(tb)
+        extra = data_for(rng, tb, case['chunk'] * nb // case['nchunks'], (case['chunk'] + 1) * nb // case['nchunks'])
+        extra = extra[: min(len(extra) - len(extra) % 8, 8 * 60)]
+        data = extra + data
+        recs = []
+        for fname, tbl, route in ((case['file'], table, 'direct'), (other, tb, 'plugin'),
+                                  (case['file'], table, 'plugin' if case['chunk'] % 2 else 'direct')):
+            recs.append(_decode(parse_ilog_data, data, os.path.join(drawer.io_dir(), fname), tbl, fname, route))
+        return recs
+    return [_decode(parse_ilog_data, data, path, table, label, 'direct')]
+
+
+def _decode(parse_ilog_data, data, path, table, label, route):
+    if route == 'plugin':
+        import json
+        import udparsers.m2c00.m2c00 as plug
+        out = json.loads(plug.parseUDToJson(73, {'mex_pte.h': 1, 'nimitz_pte.h': 2}[label], memoryview(bytes(data))))
+        lines = out.get('ILOG') if isinstance(out, dict) and isinstance(out.get('ILOG'), list) else None
+    else:
+        lines = parse_ilog_data(memoryview(bytes(data)), path)
+    rec = dict(family='C14', shape_ok=lines is not None, label=label, table=drawer.abstract_pte(table), data=data,
+               headings=min(2, len(lines or [])), lines=[], route=route)
+    if lines is None:
+        rec['shape_error'] = 'the plug-in returned no ILOG lines: %r' % (str(out)[:200],)
+        return rec
     try:
         for ln in lines[2:]:
             ts, rest = ln[:8], ln[9:]
@@ -161,7 +189,7 @@ def run_case(case):
     except (ValueError, OverflowError) as e:
         rec['shape_ok'] = False
         rec['shape_error'] = repr(e)[:200]
-    return [rec]
+    return rec
 
 
 def nontrivial(r):
